@@ -17,6 +17,7 @@ def make_element(spec, name=None):
         kw = {}
         if spec.get('i0') is not None:
             kw['no_load_electric_current'] = q('Current', spec['i0'])
+        if spec.get('imax') is not None:
             kw['maximum_electric_current'] = q('Current', spec['imax'])
         return mo.DCMotor(name=name, inertia_moment=J, no_load_speed=q('AngularSpeed', spec['w0']),
                           maximum_torque=q('Torque', spec['tmax']), **kw)
